@@ -285,6 +285,18 @@ def audit(modules):
 
 # ----------------------------------------------------------------------------
 # known findings
+def load_corpus(prop):
+    """minimised past disagreements (and witnesses of repaired defects): always run first"""
+    d = os.path.join(VERIF, "corpus", prop)
+    out = []
+    if os.path.isdir(d):
+        for fn in sorted(os.listdir(d)):
+            if fn.endswith(".json"):
+                with open(os.path.join(d, fn)) as f:
+                    out.append(json.load(f))
+    return out
+
+
 def load_known():
     p = os.path.join(VERIF, "known_findings.json")
     if not os.path.exists(p):
